@@ -1335,12 +1335,12 @@ impl CoreRuntime {
                 self.metadata.cycle_count = new_cycle;
                 if opcode == 0x01 {
                     let irq_src = self.timer.irq_source.clone();
-                    // If irq_source was lost, fall back to the delivered mask stack or live ISR bits.
+                    // Acknowledge the source recorded at delivery; irq_source is a live latch that later
+                    // requests (ON key in a handler, arming after a nested return) overwrite. Fall back to
+                    // it, then to live ISR bits, only when no delivery record exists.
                     let stack_mask = self.timer.delivered_masks.pop();
-                    let clear_mask = irq_src
-                        .as_deref()
-                        .and_then(src_mask_for_name)
-                        .or(stack_mask)
+                    let clear_mask = stack_mask
+                        .or_else(|| irq_src.as_deref().and_then(src_mask_for_name))
                         .or_else(|| {
                             self.memory
                                 .read_internal_byte(IMEM_ISR_OFFSET)
